@@ -33,6 +33,7 @@ import IbicusModel.Lemmas.GenIsimipFreq
 #print axioms Props.C09.step6_mono
 #print axioms Props.C09.step6_mono_unbounded
 #print axioms Props.C09.window_mono
+#print axioms Props.C09.step6_ela_can_reorder
 #print axioms Props.C09.hurdle_qm_order
 #print axioms Props.C09.hurdle_window_order
 #print axioms Props.C09.iz_qm_order
@@ -50,6 +51,7 @@ import IbicusModel.Lemmas.GenIsimipFreq
 #print axioms Lemmas.C09.eqLaws_hist
 #print axioms Lemmas.C09.isiLaws_tas
 #print axioms Lemmas.C09.isiLaws_hurs_uniform
+#print axioms Lemmas.C09.isiLaws_ela
 #print axioms Lemmas.C09.precipLaws_ratFam
 #print axioms Lemmas.C09.precipWindow_orderPres
 -- reused C16 / C11 laws the proofs rest on
